@@ -94,6 +94,44 @@ Proof.
   - intro Hm. apply tv_le1, (Hscalar ma Hma Hm).
 Qed.
 
+(* no 'Multiple assignments': a semantic error while the object is built stems from a nested object or the name check *)
+Theorem parsed_object_no_mult_assign b nid fuel psq s kids s' cls attrs top :
+  MultPeg.den g mm attr_id true b nid = true -> Mult.grammar_ok b = true ->
+  prs fuel nid psq s = Ok (RTree (NT nid kids)) s' ->
+  info mm nid = IRule RCommon cls attrs ->
+  mult_agreesb attr_id b attrs = true ->
+  forallb (kid_okb mm) kids = true ->
+  pn (NT nid kids) top = BErr ESem ->
+  (exists k c', In k kids /\ pn k (Some c') = BErr ESem /\
+     (pureb mm k = true \/ exists n' ks a o k0 c'', k = NT n' ks /\ info mm n' = IAsgn a o /\ In k0 ks /\ pn k0 (Some c'') = BErr ESem))
+  \/ (exists c1, each_loop pn kids (Some (mkCur cls attrs (tpos (NT nid kids)) (tend (NT nid kids)) (init_attrs auto attrs))) = BOk (Some c1)
+                 /\ name_ok (c_vals c1) = false).
+Proof.
+  intros Hd Hg Hp Hi Hmu Hok Hb.
+  pose proof (MultPegProofs.peg_result_is_trace g mm attr_id conv0 input orc b nid fuel psq s _ s' Hd Hp) as Hem.
+  cbn [MultPeg.top_nodes] in Hem.
+  assert (Hagree : forall ma, find_attr (a_name ma) attrs = Some ma ->
+            is_many (a_mult ma) = Mult.is_list (Mult.infer b (attr_id (a_name ma)))).
+  { intros ma Hma. unfold mult_agreesb in Hmu. rewrite forallb_forall in Hmu.
+    specialize (Hmu ma (find_attr_in _ _ _ Hma)). apply Bool.eqb_prop in Hmu. exact Hmu. }
+  assert (Hscalar : forall ma, find_attr (a_name ma) attrs = Some ma -> is_many (a_mult ma) = false ->
+            wgt g mm attr_id conv0 (attr_id (a_name ma)) kids <= 1).
+  { intros ma Hma Hm. rewrite (Hagree ma Hma) in Hm.
+    assert (Hmc : Mult.maxcount (attr_id (a_name ma)) b <= 1).
+    { destruct (le_lt_dec 2 (Mult.maxcount (attr_id (a_name ma)) b)) as [L|L]; [|lia].
+      apply MultProofs.infer_list_iff in L. congruence. }
+    pose proof (MultFlowProofs.emits_weight (attr_id (a_name ma)) b _ Hem) as Hw.
+    unfold wgt. unfold Mult.cap2 in Hw. lia. }
+  assert (Hmany : forall ma, find_attr (a_name ma) attrs = Some ma -> is_many (a_mult ma) = true ->
+            forall ev, In ev (evs (flat_map tn kids)) -> Mult.ev_attr ev = attr_id (a_name ma) -> Mult.ev_op ev <> MultBase.OpBool).
+  { intros ma Hma Hm ev Hin Ha Hb'. rewrite (Hagree ma Hma) in Hm.
+    apply (MultFlowProofs.list_attr_not_bool b _ Hg Hm).
+    pose proof (MultFlowProofs.emits_events b _ Hem) as Hev. rewrite Forall_forall in Hev.
+    destruct (Hev ev Hin) as [Hasg _]. rewrite Ha, Hb' in Hasg. apply MultFlowProofs.in_ops_of, Hasg. }
+  eapply (object_no_mult_assign g mm input grp auto use_grp attr_id conv0 Htab attrs kids Hscalar Hmany); try eassumption.
+  intros ma0 Hma0. rewrite get_init, Hma0. reflexivity.
+Qed.
+
 (* ---------------------------------------------------------------- whole run *)
 Definition obj_tree_okb (t : tree) : bool :=
   match t with NT _ ks => forallb (kid_okb mm) ks | T _ _ _ _ => true end.
